@@ -60,6 +60,10 @@ func (f c01Filter) ssid() message.Ssid {
 
 func runC01(c *kernel.Ctx) {
 	t := c.Tape
+	if c.Params["campaign"] != "single" && (c.Params["campaign"] == "conc" || t.Chance(1, 8)) {
+		runC01Concurrent(c)
+		return
+	}
 	mode := ""
 	trie := message.NewTrie()
 	if t.Chance(1, 2) {
